@@ -175,7 +175,7 @@ class CliqueArg(FactAnalysis):
 
 def scalar_mul_sanitised(repo):
     """the scalar branch of Factor.__mul__ wraps the product in np.nan_to_num (default: +-inf -> finite, nan -> 0)"""
-    fi = repo.func(FACTOR, 'Factor.__mul__')
+    fi = repo.nfunc(FACTOR, 'Factor.__mul__')
     for s in fi.body:
         if isinstance(s, ast.If) and 'isscalar' in U(s.test):
             for c in calls_in(s):
@@ -246,7 +246,7 @@ def dedupe(ctx, rule):
 
 
 def check_active(ctx):
-    fi = ctx.repo.func(FACTOR, 'Factor.active')
+    fi = ctx.repo.nfunc(FACTOR, 'Factor.active')
     dom, zeros = fi.params[0], fi.params[1]
     stores = [s for s in ast.walk(fi.node) if isinstance(s, ast.Assign) and isinstance(s.targets[0], ast.Subscript)]
     if not stores:
@@ -283,7 +283,7 @@ def check_active(ctx):
 
 
 def check_ctor(ctx):
-    fi = ctx.repo.func(INF, 'FactoredInference.__init__')
+    fi = ctx.repo.nfunc(INF, 'FactoredInference.__init__')
     if 'structural_zeros' not in fi.params:
         raise AnalysisError('FactoredInference.__init__ lost its structural_zeros parameter')
     loops = [s for s in fi.body if isinstance(s, ast.For) and U(s.iter) in ('structural_zeros', 'structural_zeros.keys()',
@@ -315,7 +315,7 @@ def check_ctor(ctx):
 
 
 def check_inf_guard(ctx):
-    fi = ctx.repo.func(FACTOR, 'Factor.__sub__')
+    fi = ctx.repo.nfunc(FACTOR, 'Factor.__sub__')
     other = fi.params[1]
     guards = []
     for c in calls_in(fi.node):
